@@ -41,7 +41,7 @@ structure Tbl where
   sks : List (Nat × Entry) := []
 
 def isSketchCmd (c : String) : Bool :=
-  c ∈ ["M", "mv", "ml", "mi", "K", "add", "q", "qs", "obs", "merge", "copy", "clear", "rew", "encchk", "dec", "decm", "same", "chmap", "pbchk", "frompb", "fe", "xpanic"]
+  c ∈ ["M", "mv", "ml", "mi", "K", "add", "q", "qs", "obs", "merge", "copy", "clear", "rew", "encchk", "dec", "decm", "same", "chmap", "pbchk", "frompb", "fe", "xpanic", "pbeq"]
 
 def parseMKind : String → Option MKind
   | "log" => some .log
@@ -389,6 +389,10 @@ def run (t : Tbl) (cmd : String) (args : List String) : Tbl × String :=
         | some l => (t, toString (if k = 0 then l.length else min k l.length))
         | none => (t, "panic")
     | none => (t, "bad-op")
+  | "pbeq", [h] =>
+    -- direct oracle on the implementation only (streamed protobuf = message built in memory, bit for bit, also
+    -- for weights whose float sums are not exact, which the model's exact weights do not follow)
+    withSk t h fun _ _ => (t, "ok")
   | "xpanic", [h, _] =>
     -- the generator saw the implementation panic in a read-only operation (encode / protobuf /
     -- iteration) on this sketch: the model never does
